@@ -155,6 +155,40 @@ pub fn check_watches(d: &VerifDump) -> Result<(), (String, String)> {
     Ok(())
 }
 
+/// Under the final trail of a successful solve no clause of the database may be falsified (every
+/// literal assigned and false), helper variables included, and no variable may be on the trail twice.
+pub fn check_fixpoint(d: &VerifDump) -> Result<(), (String, String)> {
+    let mut val: HashMap<VerifVar, bool> = HashMap::new();
+    for (v, b, _) in &d.trail {
+        if let Some(old) = val.insert(*v, *b) {
+            return Err(("trail:variable-twice".into(), format!("{v:?} is on the trail twice ({old} and {b})")));
+        }
+    }
+    for (i, c) in d.clauses.iter().enumerate() {
+        let mut satisfied = false;
+        let mut unassigned = 0;
+        for (v, want) in &c.literals {
+            match val.get(v) {
+                Some(b) if b == want => satisfied = true,
+                Some(_) => {}
+                None => unassigned += 1,
+            }
+        }
+        if satisfied || c.literals.is_empty() {
+            continue;
+        }
+        if unassigned == 0 {
+            return Err(("fixpoint:clause-falsified".into(), format!("clause {i} ({:?} {:?}) is false under the final assignment of a successful solve", c.kind, c.literals)));
+        }
+        // (a clause that is unit with an unassigned last literal is NOT an error: clauses added lazily
+        // while one of their literals is already false are only looked at again when the other watched
+        // literal is assigned, which is enough for soundness; demanding eager propagation here was a
+        // false alarm of a first version of this check)
+        let _ = unassigned;
+    }
+    Ok(())
+}
+
 /// Evaluates property `prop` on one (case, cfg). `order` positions violations
 /// deterministically (family no, index, cfg no).
 pub fn check(prop: P, case: &Case, cfg: &RunCfg, order: (usize, u64, u32), acc: &mut Acc) {
@@ -199,6 +233,11 @@ pub fn check(prop: P, case: &Case, cfg: &RunCfg, order: (usize, u64, u32), acc: 
             acc.count("watch_structures_checked");
             if let Err((sig, what)) = check_watches(d) {
                 acc.violation(v(sig, what, res.outcome.short()));
+            }
+            if matches!(res.outcome, Outcome::Ok(_)) {
+                if let Err((sig, what)) = check_fixpoint(d) {
+                    acc.violation(v(sig, what, res.outcome.short()));
+                }
             }
         }
     }
